@@ -84,7 +84,7 @@ def pExprV : P (Expr Var) := do
 def showLitV (l : Lit) : String := s!"{nameOfVar l.v} {b01 l.s}"
 def showClause (c : Clause) : String := s!"{c.length}" ++ String.join (c.map fun l => " " ++ showLitV l)
 def showSErr : Sat.Err → String
-  | .exception => "err:Exception" | .keyError => "err:KeyError" | .fuel => "err:Fuel"
+  | .exception => "err:Exception" | .keyError => "err:KeyError" | .indexError => "err:IndexError" | .fuel => "err:Fuel"
 
 def showMgr (m : Mgr) : String :=
   s!"{m.auxcount} {m.vars.length}" ++ String.join (m.vars.map fun v => " " ++ nameOfVar v)
